@@ -170,6 +170,23 @@ class RestrictedUnpickler:
         return _U(file, **kwargs)
 
 
+def _make_restricted_py_unpickler() -> type:
+    import pickle
+
+    class RestrictedPyUnpickler(pickle._Unpickler):  # type: ignore[name-defined,misc]
+        """pure-Python unpickler that refuses every global lookup.  Unlike the C unpickler its memo is a dict, so a
+        PUT / LONG_BINPUT opcode with a huge index cannot make it allocate index*16 bytes (see mutate.pickle_put_index_max).
+        Selected with {"kind": "pickle", "restricted": "py"}."""
+
+        def find_class(self, module, name):  # noqa: ANN001
+            raise pickle.UnpicklingError(f"global {module}.{name} is forbidden")
+
+    return RestrictedPyUnpickler
+
+
+RestrictedPyUnpickler = _make_restricted_py_unpickler()
+
+
 _NT_CACHE: dict[tuple[str, ...], type] = {}
 
 
@@ -384,6 +401,8 @@ def _build_serializer(spec: dict) -> Any:
     if k == "bz2":
         return BZ2CompressorSerializer(_build_serializer(spec["inner"]), compress_level=spec.get("level"))
     if k == "pickle":
+        if spec.get("restricted") == "py":
+            return PickleSerializer(unpickler_cls=RestrictedPyUnpickler)  # type: ignore[arg-type]
         return PickleSerializer(unpickler_cls=RestrictedUnpickler if spec.get("restricted") else None)  # type: ignore[arg-type]
     if k == "stapled":
         return StapledPacketSerializer(_build_serializer(spec["sent"]), _build_serializer(spec["recv"]))
